@@ -119,15 +119,24 @@ def run(ctx):
             res_, tempo, pts = tm.seeded_map(r, min_segments=r.choice([9, 33, 65]), max_segments=200, max_total_s=5000)
         else:
             res_, tempo, pts = tm.seeded_map(r, max_segments=6, max_total_s=5000)
+        # every seventh chart: the note lines are NOT in tick order (an editor that appends).  The count is over the note events
+        # whose start lies in the interval, in whatever order they were written; one tempo segment, so that no backward step
+        # is refused by the hinted time lookup.
+        unordered = k % 7 == 3 and not huge
+        if unordered:
+            tempo = tempo[:1]
         hi = max(pts)
         pool = sorted(set(pts) | {r.randrange(0, hi + 1) for _ in range(r.choice([0, 10, 30]) if not big else 600)})
         ticks = sorted(set(r.sample(pool, min(len(pool), r.randrange(1, 25) if not big else r.randrange(100, 500)))))
-        body = []
+        groups = []
         for j, t in enumerate(ticks):
             combo = r.choice(nt.ALL_COMBOS)
             ln = r.choice([0, 0, 1, max(0, hi - t)])
             idxs = [7] if combo == "open" else list(combo)
-            body += nt.group_lines(t, combo, {ix: ln for ix in idxs})
+            groups.append(nt.group_lines(t, combo, {ix: ln for ix in idxs}))
+        if unordered:
+            r.shuffle(groups)
+        body = [ln_ for g in groups for ln_ in g]
         # (anchor lines on note ticks and elsewhere, with times of their own: a tick bound means the tempo-map time)
         anchors = [("A", t, r.choice([0, 1, r.randrange(0, 10**8)])) for t in sorted(r.sample(ticks, min(len(ticks), r.choice([0, 1, 3, 8]))))]
         case = {"id": f"s{k}", "res": res_, "sync": [("B", t, n) for t, n in tempo] + [("TS", 0, 4)] + anchors, "events": [],
